@@ -549,8 +549,11 @@ def impl(case):
             if o['store']._registry is sl['store']._registry:
                 regs.append(j)
                 break
-    from cellmlmanip import _singularity_fixes as sf
-    notes['cache'] = [sf._get_singularity.cache_info().currsize > 0, sf._generate_piecewise.cache_info().currsize > 0]
+    try:
+        from cellmlmanip import _singularity_fixes as sf
+        notes['cache'] = [sf._get_singularity.cache_info().currsize, sf._generate_piecewise.cache_info().currsize]
+    except Exception:
+        notes['cache'] = None
     return {'steps': steps, 'leaks': leaks[:12], 'regs': regs, 'notes': notes, 'probes': probes}
 
 
@@ -774,7 +777,17 @@ def _sem_upto(case, obs, upto):
 def _same_sing(r, b):
     if not (isinstance(r, list) and isinstance(b, list)):
         return r == b
-    return r[1] == b[1] and len(r[2]) == len(b[2]) and all(U.close(mpmath.mpf(x), mpmath.mpf(y)) for x, y in zip(r[2], b[2]))
+    return r[1] == b[1] and len(r[2]) == len(b[2]) and all(x == y or U.close(mpmath.mpf(x), mpmath.mpf(y)) for x, y in zip(r[2], b[2]))
+
+
+def expected_regs(case, obs):
+    """registry root of every slot, from the construction alone (UnitStore(other) / unit_store=other shares)"""
+    regs = []
+    for op, st in zip(case['ops'], obs['steps']):
+        if op[0] in ('store', 'model', 'load') and st['r'] == 'ok':
+            share = op[2] if op[0] == 'load' else op[1]
+            regs.append(len(regs) if share is None or share >= len(regs) else regs[share])
+    return regs
 
 
 def _fmt_dims(d):
@@ -783,7 +796,7 @@ def _fmt_dims(d):
 
 def oracle(case, obs):
     fails = [dict(f) for f in obs['leaks']]
-    regs = obs['regs']
+    regs = expected_regs(case, obs)
     n_slots = 0
     sing_seen, params, converted = {}, {}, set()
     for idx, (op, step) in enumerate(zip(case['ops'], obs['steps'])):
@@ -873,14 +886,15 @@ def oracle(case, obs):
             elif not (isinstance(r, list) and r[1] == want):
                 fails.append({'key': 'format-shows-prefix', 'detail': 'op %d %s gave %s' % (idx, op, r)})
     # (3) a conversion rule must at least stay inside its registry (inside it: recorded observation, see report)
-    for j, visible, same_reg in obs['notes'].get('rule', []):
-        if visible and not same_reg:
+    rule_at = [op[1] for op in case['ops'] if op[0] == 'rule']
+    for j, visible, _ in obs['notes'].get('rule', []):
+        if visible and rule_at and j < len(regs) and rule_at[0] < len(regs) and regs[j] != regs[rule_at[0]]:
             fails.append({'key': 'leak:rule-across-registries', 'detail': 'rule visible in store %d' % j})
     return fails[:8]
 
 
 def nontrivial(case, obs):
-    regs = obs['regs']
+    regs = expected_regs(case, obs)
     if len(regs) < 2:
         return False
     shared = len(set(regs)) < len(regs)
@@ -895,11 +909,14 @@ def nontrivial(case, obs):
 
 
 def tag(case, obs):
-    regs = obs['regs']
+    regs = expected_regs(case, obs)
     t = '%s slots=%d %s' % (case['kind'], len(regs), 'shared' if len(set(regs)) < len(regs) else 'separate')
     rule = obs['notes'].get('rule')
     if rule:
-        t += ' rule-visible-in-shared=%s' % any(v and s for _, v, s in rule)
+        at = [op[1] for op in case['ops'] if op[0] == 'rule'][0]
+        sharing = [v for j, v, _ in rule if j < len(regs) and at < len(regs) and regs[j] == regs[at]]
+        if sharing:
+            t += ' rule-visible-in-sharing-store=%s' % all(sharing)
     return t
 
 
